@@ -766,6 +766,38 @@ def _ops():
             lambda: setattr(s.shapes.add_textbox(0, 0, 1, 1).text_frame.paragraphs[0].add_run().font, "size", Pt(5000)),
             lambda: prs.slide_layouts.remove(s.slide_layout),
         ]
+
+        def bad_index_then_use():
+            """positions that do not exist (one past either end, far out, negative beyond the start): an IndexError / KeyError, or --
+            should a position be accepted -- whatever is done with the object must be refused cleanly"""
+            charts = [sh.chart for sh in shapes_with(prs, lambda s_: s_.has_chart)]
+            colls = [prs.slides, s.shapes, s.placeholders, prs.slide_layouts, prs.slide_masters]
+            for sh in list(s.shapes)[:6]:
+                if sh.has_text_frame:
+                    colls += [sh.text_frame.paragraphs]
+                if getattr(sh, "has_table", False) and sh.has_table:
+                    colls += [sh.table.rows, sh.table.columns, sh.table.rows[0].cells]
+            for ch in charts[:2]:
+                colls += [ch.plots]
+                for pl in list(ch.plots)[:1]:
+                    colls += [pl.series, pl.categories]
+                    for sr in list(pl.series)[:1]:
+                        colls += [sr.points]
+            coll = rnd.choice(colls)
+            n = len(coll)
+            idx = rnd.choice([n, n + 1, -n - 1, -n - 2, 10 ** 6, -10 ** 6])
+            obj = coll[idx]
+            # accepted: use it the way a caller would
+            for use in (lambda: obj.format.fill.solid(), lambda: setattr(obj.marker, "size", 7), lambda: obj.data_label.text_frame, lambda: setattr(obj, "text", "x"),
+                        lambda: setattr(obj, "height", 5), lambda: setattr(obj, "width", 5), lambda: obj.shapes):
+                try:
+                    use()
+                except AttributeError:
+                    continue
+
+        tries.append(bad_index_then_use)
+        tries.append(bad_index_then_use)
+        tries.append(bad_index_then_use)
         try:
             rnd.choice(tries)()
         except (IndexError, ValueError, TypeError, KeyError):
